@@ -169,3 +169,493 @@ def gen_tables(ctx):
     if core.write_if_changed(GEN, render_tables(t)):
         changed.append(str(GEN.relative_to(core.LEAN)))
     return changed
+
+
+# ---------------------------------------------------------------- real code
+def _impl_base(b):
+    return {"entries": [[k, int(v.num), int(v.den)] for k, v in b.baseunits.items()],
+            "magnitude": float(b.magnitude),
+            "dims": [list(map(int, x)) if isinstance(x, tuple) else int(x) for x in b.dimensions.value()],
+            "expression": b.expression}
+
+
+def impl_obs(text):
+    """BaseUnits(text) and Quantity(1,text) of the real package; any exception -> 'err'"""
+    from scinumtools.units import Quantity
+    from scinumtools.units.base_units import BaseUnits
+    out = {}
+    try:
+        out["base"] = _impl_base(BaseUnits(text))
+    except Exception as e:
+        out["base"] = "err"
+        out["base_exc"] = type(e).__name__
+    try:
+        q = Quantity(1, text)
+        out["quantity"] = {"value": float(q.magnitude.value), "base": _impl_base(q.baseunits)}
+    except Exception as e:
+        out["quantity"] = "err"
+        out["quantity_exc"] = type(e).__name__
+    return out
+
+
+def impl_roundtrip(text):
+    """expression -> BaseUnits again: (ok?, detail)"""
+    from scinumtools.units.base_units import BaseUnits
+    b = BaseUnits(text)
+    if b.expression is None:
+        return True, ""
+    try:
+        b2 = BaseUnits(b.expression)
+    except Exception as e:
+        return False, "re-parsing %r raises %s" % (b.expression, type(e).__name__)
+    e1 = {k: Q(int(v.num), int(v.den)) for k, v in b.baseunits.items()}
+    e2 = {k: Q(int(v.num), int(v.den)) for k, v in b2.baseunits.items()}
+    if e1 != e2 or list(e1) != list(e2):
+        return False, "units %s -> %r -> %s" % (e1, b.expression, e2)
+    if b2.expression != b.expression:
+        return False, "expression %r -> %r" % (b.expression, b2.expression)
+    if not _close(b.magnitude, b2.magnitude):
+        return False, "magnitude %r -> %r" % (b.magnitude, b2.magnitude)
+    return True, ""
+
+
+# ---------------------------------------------------------------- numbers
+def _close(a, b, rtol=1e-9):
+    a, b = float(a), float(b)
+    if a == b:
+        return True
+    if a != a or b != b or math.isinf(a) or math.isinf(b):
+        return False
+    return abs(a - b) <= 1e-300 + rtol * max(abs(a), abs(b))
+
+
+def _pow(base_q, en, ed):
+    x = float(base_q)
+    if en == 0 or ed == 1:
+        return x ** en
+    return x ** (en / ed)
+
+
+def factors_value(fs):
+    """prod float(mag) ** (en/ed), evaluated the way the package does"""
+    v = 1.0
+    for mn, md, en, ed in fs:
+        v *= _pow(Q(mn, md), en, ed)
+    return v
+
+
+def log_size(coef, fs):
+    """sum of |log10| of the factors (to keep results finite)"""
+    s = 0.0
+    if coef is not None:
+        c = Q(coef[0], coef[1])
+        if c != 0:
+            s += abs(math.log10(abs(c.numerator)) - math.log10(c.denominator))
+    for mn, md, en, ed in fs:
+        if mn <= 0 or ed == 0:
+            continue
+        s += abs(en / ed) * abs(math.log10(mn) - math.log10(md))
+    return s
+
+
+# ---------------------------------------------------------------- comparison
+def cmp_model(imp, mod):
+    """impl vs Lean model (mirror of the code): list of differences"""
+    diffs = []
+    for part in ("base", "quantity"):
+        i, m = imp[part], mod[part]
+        if i == "err" or "err" in m:
+            if (i == "err") != ("err" in m):
+                diffs.append("%s: impl %s model %s" % (part, "err" if i == "err" else "ok", m.get("err", "ok")))
+            continue
+        ib, mb = (i, m) if part == "base" else (i["base"], m["base"])
+        if ib["entries"] != mb["entries"]:
+            diffs.append("%s.entries: impl %s model %s" % (part, ib["entries"], mb["entries"]))
+        if ib["dims"] != mb["dims"]:
+            diffs.append("%s.dims: impl %s model %s" % (part, ib["dims"], mb["dims"]))
+        if ib["expression"] != mb["expression"]:
+            diffs.append("%s.expression: impl %r model %r" % (part, ib["expression"], mb["expression"]))
+        mv = factors_value(mb["factors"])
+        if not _close(ib["magnitude"], mv):
+            diffs.append("%s.magnitude: impl %r model %r" % (part, ib["magnitude"], mv))
+        if part == "quantity":
+            qv = float(Q(m["coef"][0], m["coef"][1])) * factors_value(m["factors"])
+            if not _close(i["value"], qv):
+                diffs.append("quantity.value: impl %r model %r" % (i["value"], qv))
+    return diffs
+
+
+def cmp_spec(imp, spec):
+    """impl vs specification: (kind, what) or None.  kind in accepts-invalid / rejects-valid / units / dims / factor"""
+    s_err = "err" in spec
+    i_err = imp["base"] == "err" or imp["quantity"] == "err"
+    if s_err:
+        if imp["base"] != "err" or imp["quantity"] != "err":
+            acc = imp["base"] if imp["base"] != "err" else imp["quantity"]["base"]
+            return "accepts-invalid", "not a unit expression over the tables, but accepted as %s" % (acc["entries"],)
+        return None
+    if i_err:
+        return "rejects-valid", "valid expression (units %s) rejected with %s" % (
+            spec["units"], imp.get("base_exc") or imp.get("quantity_exc"))
+    su = {k: Q(n, d) for k, n, d in spec["units"]}
+    iu = {k: Q(n, d) for k, n, d in imp["base"]["entries"] if d != 0}
+    if su != iu:
+        return "units", "exponents %s, table product gives %s" % (
+            {k: str(v) for k, v in iu.items()}, {k: str(v) for k, v in su.items()})
+    sd = [Q(n, d) for n, d in spec["dims"]]
+    idm = [Q(x[0], x[1]) if isinstance(x, list) else Q(x) for x in imp["base"]["dims"]]
+    if sd != idm:
+        return "dims", "dimension vector %s, sum of e*dim gives %s" % ([str(x) for x in idm], [str(x) for x in sd])
+    sv = factors_value(spec["factors"])
+    if not _close(imp["base"]["magnitude"], sv):
+        return "factor", "BaseUnits magnitude %r, product of table entries gives %r" % (imp["base"]["magnitude"], sv)
+    tot = float(Q(spec["coef"][0], spec["coef"][1])) * sv
+    q = imp["quantity"]
+    if not _close(q["value"] * q["base"]["magnitude"], tot):
+        return "factor", "Quantity(1,text) is %r x %r in base units, product of table entries gives %r" % (
+            q["value"], q["base"]["magnitude"], tot)
+    qd = [Q(x[0], x[1]) if isinstance(x, list) else Q(x) for x in q["base"]["dims"]]
+    if qd != sd:
+        return "dims", "Quantity dimension vector %s, sum of e*dim gives %s" % ([str(x) for x in qd], [str(x) for x in sd])
+    return None
+
+
+# ---------------------------------------------------------------- generators
+EXPS_QUICK = ["", "2", "-1", "1:2", "-3:2"]
+EXPS_MORE = ["3", "-2", "2:3", "+2", "4:2", "0", "-1:-2", "12", "1:3", "-5:2", "+1:+2", "03", "1"]
+FOREIGN = list("xkmda 2-:+#.e()*/,[%_'G\tµ"[:-1])   # ASCII only
+CORPUS = ["dam", "xkm", "xm", "mmm", "2m", "-m", "k m", "dag", "dam2", "daar", "dar", "mm", "km", "kkm", "dakm",
+          "kau", "krad", "mrad", "min", "mmin", "cd", "ccd", "mol", "mmol", "Pa", "hPa", "mPa", "Pam", "am", "a",
+          "", " ", "()", "(m)", "((m))", "(m", "m)", "(m)(s)", "(m)s", "m(s)", "m**s", "m*", "*m", "m/", "/m",
+          "m*s/kg2", "kg*m2/s2", "kg*m2/(s2*A)", "m/(s*(kg/mol))", " m * s ", "( m )", "m /s", "m\t*\ns",
+          "2*m", "m*2", "1e3*m", "1.5e-3*km", "-2*m", "+2*m", "2", "2.", ".5", ".", "1.2.3", "1e", "1e+-3", "1E3",
+          "m/0", "0*m", "m/0.0", "2m", "m 2", "m2:3", "m2:3:4", "m:2", "m+-2", "m2:", "m2:0", "m0", "m0:5",
+          "m4:2", "m1:2*m1:2", "m*m-1", "m/m", "m/cm", "rad", "deg/rad", "%", "ppth*%", "[pi]", "[pi]2", "k[pi]",
+          "#SADO", "#SADO2", "#SADO0", "#CENE/#SENE", "#foo", "#foo0", "#Zbar0", "#[euler]0", "# SADO", "k#SADO", "#", "#2", "m*#ALEN-1",
+          "''", "'", "''2", "k'", "Cel", "degF", "kCel", "dB", "dBm", "BmW", "kB", "dNp", "cNp", "mNp",
+          "statC", "abA2", "[emu_mu_B]", "dyn1:2*cm", "cm-1:2*g1:2/s", "m,s", "(m,s)", "((m,s))", "(m,)", "m;s"]
+
+
+def admissible_pairs(t):
+    keys = [p["sym"] for p in t["prefixes"]]
+    out = []
+    for u in t["units"]:
+        adm = keys if u["pref"] == "all" else ([] if u["pref"] == "none" else [p for p in u["pref"] if p in keys])
+        out.append((u["sym"], adm))
+    return out
+
+
+def render_ast(a):
+    k = a[0]
+    if k == "atom":
+        return a[1] + a[2] + a[3]
+    if k == "sys":
+        return a[1] + a[2]
+    if k == "num":
+        return a[1]
+    if k == "mul":
+        return render_ast(a[1]) + "*" + render_ast(a[2])
+    if k == "div":
+        return render_ast(a[1]) + "/" + render_ast(a[2])
+    return "(" + render_ast(a[1]) + ")"
+
+
+def gen_leaf(rng, t, pairs):
+    r = rng.random()
+    if r < 0.06:
+        return ["num", rng.choice(["2", "10", "0.5", "1e3", "2.5e-2", "-3", "1.", ".25", "1e+2", "007", "4"])]
+    if r < 0.12:
+        return ["sys", rng.choice(t["sys"])["sym"], rng.choice(["", "", "2", "-1", "1:2"])]
+    exp = rng.choice(EXPS_QUICK + EXPS_QUICK + EXPS_MORE) if rng.random() < 0.6 else ""
+    if r < 0.16:   # invalid leaf: inadmissible prefix / unknown symbol / doubled prefix
+        sym, adm = rng.choice(pairs)
+        keys = [p["sym"] for p in t["prefixes"]]
+        bad = [p for p in keys if p not in adm]
+        c = rng.random()
+        if c < 0.5 and bad:
+            return ["atom", rng.choice(bad), sym, exp]
+        if c < 0.75:
+            return ["atom", "", rng.choice(["q", "xx", "foo", "M_sol", "[x]", "mm2m"]), exp]
+        return ["atom", rng.choice(keys) + rng.choice(keys), sym, exp]
+    sym, adm = rng.choice(pairs)
+    pre = rng.choice(adm) if adm and rng.random() < 0.6 else ""
+    return ["atom", pre, sym, exp]
+
+
+def gen_ast(rng, t, pairs, depth):
+    def term(d):
+        if d > 0 and rng.random() < 0.25:
+            return ["par", expr(d - 1)]
+        return gen_leaf(rng, t, pairs)
+
+    def expr(d):
+        a = term(d)
+        for _ in range(rng.choice([0, 1, 1, 2, 2, 3, 4])):
+            a = [rng.choice(["mul", "mul", "div"]), a, term(d)]
+        return a
+    return expr(depth)
+
+
+def with_blanks(rng, text):
+    out = []
+    for c in text:
+        if c in "*/()" and rng.random() < 0.5:
+            out.append(rng.choice([" ", "  ", "\t", "\n"]) * (rng.random() < 0.5) + c + " " * (rng.random() < 0.5))
+        else:
+            out.append(c)
+    return rng.choice(["", " ", ""]) + "".join(out) + rng.choice(["", " ", ""])
+
+
+import re as _re
+_ZERO_DEN = _re.compile(r":[+-]?0+(?![0-9])")
+_LONG_INT = _re.compile(r"[0-9]{15,}")
+
+
+def out_of_domain(text, ans):
+    """inputs the property does not talk about (see ASSUMPTIONS)"""
+    if any(ord(c) > 126 or (ord(c) < 32 and c not in "\t\n") for c in text):
+        return "nonascii"
+    if _ZERO_DEN.search(text):
+        return "zero-denominator"
+    if _LONG_INT.search(text):
+        return "long-integer"
+    size = 0.0
+    m = ans["model"]
+    for part in (m["base"], m["quantity"], m["quantity"].get("base", {}) if isinstance(m["quantity"], dict) else {}):
+        if isinstance(part, dict) and "err" not in part:
+            size = max(size, log_size(part.get("coef"), part.get("factors", [])))
+    s = ans.get("spec", {})
+    if "err" not in s:
+        size = max(size, log_size(s.get("coef"), s.get("factors", [])))
+    if size > 250:
+        return "overflow"
+    return None
+
+
+# ---------------------------------------------------------------- judging
+def _pieces(text):
+    return [p.strip() for p in _re.split(r"[*/()]", text) if p.strip()]
+
+
+def judge(ctx, stream, text, ans, spec_key="spec", nontrivial=True, ast=None):
+    """one input: impl vs model (tie) and impl vs spec (property)"""
+    imp = impl_obs(text)
+    ood = out_of_domain(text, ans)
+    ctx.count("stream." + stream)
+    if ood:
+        ctx.count("ood." + ood)
+        return imp
+    spec = ans[spec_key]
+    ctx.case(text, nontrivial, {"text": text, "impl": imp["base"] if imp["base"] == "err" else imp["base"]["entries"]})
+    ctx.count("impl." + ("err" if imp["base"] == "err" else "ok"))
+    d = cmp_model(imp, ans["model"])
+    if d:
+        ctx.disagreement(stream, {"text": text}, "; ".join(d)[:600])
+    v = cmp_spec(imp, spec)
+    if v is None and imp["base"] != "err":
+        ok, detail = impl_roundtrip(text)
+        if not ok:
+            v = ("roundtrip", "rendering and re-parsing changes the units: " + detail)
+    if v is not None:
+        kind, what = v
+        small = text
+        if len(ctx.violations) < 40:
+            small = minimize(ctx, text, kind)
+        cls = "expr" if _re.search(r"[*/()]", small) else "atom"
+        ctx.violation("%s:%s" % (kind, cls), "BaseUnits/Quantity(%r): %s" % (small, what if small == text else
+                      explain(ctx, small, kind)), {"text": small, "from": text, "stream": stream})
+    return imp
+
+
+def _fails(ctx, text, kind):
+    ans = ctx.driver.ask({"p": "C03", "k": "text", "text": text})
+    if "ok" not in ans:
+        return None
+    ans = ans["ok"]
+    if out_of_domain(text, ans):
+        return None
+    imp = impl_obs(text)
+    v = cmp_spec(imp, ans["spec"])
+    if v is None and imp["base"] != "err":
+        ok, detail = impl_roundtrip(text)
+        if not ok:
+            v = ("roundtrip", "rendering and re-parsing changes the units: " + detail)
+    return v
+
+
+def minimize(ctx, text, kind):
+    for p in sorted(set(_pieces(text)), key=len):
+        if p != text:
+            v = _fails(ctx, p, kind)
+            if v is not None and v[0] == kind:
+                return p
+    return text
+
+
+def explain(ctx, text, kind):
+    v = _fails(ctx, text, kind)
+    return v[1] if v else kind
+
+
+def ask_texts(ctx, texts):
+    res = ctx.driver.ask_many([{"p": "C03", "k": "text", "text": t} for t in texts])
+    out = []
+    for t, r in zip(texts, res):
+        if "ok" not in r:
+            raise RuntimeError("driver error on %r: %s" % (t, r))
+        out.append(r["ok"])
+    return out
+
+
+# ---------------------------------------------------------------- streams
+def dump_roundtrip(ctx, t):
+    d = ctx.driver.ask({"p": "C03", "k": "dump"})["ok"]
+    want = {
+        "prefixes": [{"sym": p["sym"], "mag": [p["mag"].numerator, p["mag"].denominator], "defn": p["defn"]} for p in t["prefixes"]],
+        "units": [{"sym": u["sym"], "mag": [u["mag"].numerator, u["mag"].denominator], "dims": u["dims"],
+                   "pref": u["pref"], "kind": u["kind"]} for u in t["units"]],
+        "sys": [{"sym": u["sym"], "mag": [u["mag"].numerator, u["mag"].denominator], "dims": u["dims"]} for u in t["sys"]],
+        "symbols": t["symbols"],
+    }
+    for key in want:
+        if d.get(key) != want[key]:
+            rows = [(a, b) for a, b in zip(d.get(key, []), want[key]) if a != b][:2]
+            ctx.disagreement("dump", {"table": key}, "driver table differs from the live package: %s" % (rows,))
+    ctx.count("dump.rows", len(t["prefixes"]) + len(t["units"]) + len(t["sys"]))
+    # live floats are exactly the rationals the table was written with
+    from scinumtools.units import settings as S
+    for p in t["prefixes"]:
+        if float(p["mag"]) != float(S.UNIT_PREFIXES[p["sym"]].magnitude):
+            ctx.disagreement("dump", {"prefix": p["sym"]}, "magnitude round trip")
+    for u in t["units"]:
+        if float(u["mag"]) != float(S.UNIT_STANDARD[u["sym"]].magnitude):
+            ctx.disagreement("dump", {"unit": u["sym"]}, "magnitude round trip")
+
+
+def atoms_stream(ctx, t, exps_all):
+    keys = [""] + [p["sym"] for p in t["prefixes"]]
+    texts = []
+    for u in t["units"]:
+        for p in keys:
+            texts.append(p + u["sym"])
+            if exps_all:
+                texts += [p + u["sym"] + e for e in (EXPS_QUICK[1:] + EXPS_MORE)]
+            else:
+                texts.append(p + u["sym"] + ctx.rng.choice(EXPS_QUICK[1:] + EXPS_MORE))
+    for u in t["sys"]:
+        texts.append(u["sym"])
+        texts.append(u["sym"] + ctx.rng.choice(EXPS_QUICK[1:]))
+    answers = ask_texts(ctx, texts)
+    keyset = set(keys[1:])
+    for text, ans in zip(texts, answers):
+        judge(ctx, "atoms", text, ans, nontrivial=(text[:1] in keyset or text[:2] in keyset or ":" in text))
+    return texts
+
+
+def ast_stream(ctx, t, count):
+    pairs = admissible_pairs(t)
+    asts = [gen_ast(ctx.rng, t, pairs, ctx.rng.choice([0, 1, 1, 2, 3])) for _ in range(count)]
+    texts = [render_ast(a) for a in asts]
+    res = ctx.driver.ask_many([{"p": "C03", "k": "ast", "text": s, "ast": a} for s, a in zip(texts, asts)])
+    for a, text, r in zip(asts, texts, res):
+        if "ok" not in r:
+            raise RuntimeError("driver error on %r: %s" % (text, r))
+        ans = r["ok"]
+        if ans["render"] != text or not ans["leftassoc"]:
+            ctx.disagreement("render", {"ast": a}, "python render %r, lean render %r" % (text, ans["render"]))
+            continue
+        # the two routes of the specification (AST denotation / grammar on the text) must agree
+        if ans["spec"] != ans["spec_text"]:
+            ctx.disagreement("spec-grammar", {"text": text, "ast": a}, "denote(ast) %s grammar %s" % (
+                json.dumps(ans["spec"])[:200], json.dumps(ans["spec_text"])[:200]))
+        ctx.count("ast.ops", text.count("*") + text.count("/"))
+        judge(ctx, "ast", text, ans, ast=a)
+    blanks = [with_blanks(ctx.rng, s) for s in texts[: max(50, count // 4)]]
+    for text, ans in zip(blanks, ask_texts(ctx, blanks)):
+        judge(ctx, "blanks", text, ans)
+    return texts
+
+
+def mutation_stream(ctx, seeds, per_seed_positions, chars):
+    texts = []
+    for s in seeds:
+        pos = list(range(len(s) + 1))
+        if per_seed_positions is not None and len(pos) > per_seed_positions:
+            pos = sorted(ctx.rng.sample(pos, per_seed_positions))
+        for i in pos:
+            for c in chars:
+                texts.append(s[:i] + c + s[i:])
+        for i in range(len(s)):
+            texts.append(s[:i] + s[i + 1:])
+    texts = list(dict.fromkeys(texts))
+    for text, ans in zip(texts, ask_texts(ctx, texts)):
+        judge(ctx, "foreign", text, ans)
+
+
+def random_stream(ctx, t, count):
+    syms = [u["sym"] for u in t["units"]] + [p["sym"] for p in t["prefixes"]]
+    alpha = list("mgskKCdaclhu0123456789:-+.e*/() #[]_'%")
+    texts = []
+    for _ in range(count):
+        n = ctx.rng.randint(1, 6)
+        parts = [ctx.rng.choice(syms) if ctx.rng.random() < 0.6 else ctx.rng.choice(alpha) for _ in range(n)]
+        texts.append("".join(parts))
+    for text, ans in zip(texts, ask_texts(ctx, texts)):
+        judge(ctx, "random", text, ans)
+
+
+def correspond(ctx: Ctx):
+    thorough = ctx.tier == "thorough"
+    t = extract_tables()
+    dump_roundtrip(ctx, t)
+    for text, ans in zip(CORPUS, ask_texts(ctx, CORPUS)):
+        judge(ctx, "corpus", text, ans)
+    atom_texts = atoms_stream(ctx, t, exps_all=thorough)
+    ast_texts = ast_stream(ctx, t, 6000 if thorough else 1200)
+    seeds = CORPUS[:30] + ctx.rng.sample(atom_texts, 400 if thorough else 60) + \
+        ctx.rng.sample(ast_texts, 400 if thorough else 60)
+    mutation_stream(ctx, seeds, None if thorough else 6, FOREIGN)
+    random_stream(ctx, t, 20000 if thorough else 3000)
+    ctx.extra["exhaustive_part"] = "atoms: (none + %d prefixes) x %d symbols x %s" % (
+        len(t["prefixes"]), len(t["units"]),
+        ("%d exponent texts" % (1 + len(EXPS_QUICK[1:] + EXPS_MORE))) if thorough else "(no exponent + 1 random exponent text)")
+
+
+def search(ctx: Ctx):
+    """an obligation or the tie broke and no failing input was seen yet: full cross + more expressions"""
+    t = extract_tables()
+    try:
+        atoms_stream(ctx, t, exps_all=True)
+        ast_stream(ctx, t, 4000)
+    except Exception as e:   # driver unavailable
+        ctx.notes.append("search: %r" % (e,))
+
+
+def replay(ctx: Ctx, payload):
+    text = payload.get("replay", payload).get("text")
+    if text is None:
+        print(json.dumps(payload, indent=1)[:3000])
+        return 2
+    imp = impl_obs(text)
+    print("text   : %r" % text)
+    print("impl   : %s" % json.dumps(imp)[:1500])
+    try:
+        ans = ctx.driver.ask({"p": "C03", "k": "text", "text": text})["ok"]
+    except Exception as e:
+        print("driver unavailable (%r): build with ./check C03 first" % (e,))
+        return 2
+    print("model  : %s" % json.dumps(ans["model"])[:1500])
+    print("spec   : %s" % json.dumps(ans["spec"])[:1500])
+    if out_of_domain(text, ans):
+        print("outside the domain: %s" % out_of_domain(text, ans))
+        return 0
+    v = cmp_spec(imp, ans["spec"])
+    if v is None and imp["base"] != "err":
+        ok, detail = impl_roundtrip(text)
+        if not ok:
+            v = ("roundtrip", detail)
+    if v:
+        print("VIOLATION property=C03 (replay) %s: %s" % v)
+        return 1
+    print("property holds on this input")
+    return 0
